@@ -148,7 +148,9 @@ def random_history(r, reuse=False, faults=False, maxsess=6):
         if item[0] == "L":
             k = len(ops)
             ref = r.choice(["n", "n", "n", "z"] + (["i%d" % r.below(k)] if k else []))
-            ops.append(L(item[1], cred=item[2], has=item[3], ref=ref, tag=str(item[1] % 250)))
+            # a second login under a PID comes from another connection: other address and port, not only another account
+            other = item[2].startswith("again") or item[2].startswith("second")
+            ops.append(L(item[1], cred=item[2], has=item[3], ref=ref, tag=str((item[1] + (101 if other else 0)) % 250)))
         else:
             ops.append(A(0, item[1], item[2], item[3], r.choice(RESULTS), r.below(4)))
     ops = retime(ops)
@@ -305,12 +307,12 @@ class TrackerFamily(Family):
                  ([] if quick else [dict(ops=[], fail="-", cb=(g, 4000, v)) for g in (2, 3, 4, 6) for v in (0, 1)])
             cs += cb
             self.rule += "; plus %d runs of the reassembler callback fed by 2-6 Go routines at once (also under the race detector)" % len(cb)
-        if p in ("C16", "C04"):
+        if p in ("C16", "C04", "C02"):
             # cleanup (and other deliveries) while another operation is stalled in an event write, free-running: the
             # cleanup must wait for the tracker and then take effect — judged against the sequential outcomes
             hc = [dict(h, ops=[], fail="-") for h in self._conc().hold_cases(tier)]
             cs += hc
-            self.rule += "; plus %d free-running concurrent programs with a stalled event write (cleanup must not be skipped)" % len(hc)
+            self.rule += "; plus %d free-running concurrent programs with a stalled event write (cleanup must not be skipped; an event delivered during a late login's release comes after what was held)" % len(hc)
         if p == "C16" and not quick:
             # the real processor with its real one-minute ticker, in real time (run concurrently: about 2.5 min)
             for gap, noise in ((30, 0), (45, 20), (135, 0), (140, 40), (150, 55)):
